@@ -1225,7 +1225,7 @@ func (vx *Vaxis) queryColor(ch chan string, query string) (resp string, ok bool)
 	case <-ch:
 	default:
 	}
-	vx.tw.WriteStringLocked(query)
+	vx.ttyWriter().WriteStringLocked(query)
 	timeout := time.NewTimer(colorQueryTimeout)
 	defer timeout.Stop()
 	select {
@@ -1532,28 +1532,34 @@ func (vx *Vaxis) Suspend() error {
 
 // openTty opens the /dev/tty device, makes it raw, and starts an input parser
 func (vx *Vaxis) openTty(tgts []*os.File) error {
+	var con console.Console
 	if vx.withConsole != nil {
-		vx.console = vx.withConsole
+		con = vx.withConsole
 	} else {
 		for _, s := range tgts {
 			if c, err := console.ConsoleFromFile(s); err == nil {
-				vx.console = c
+				con = c
 				break
 			}
 		}
 	}
 
-	if vx.console == nil {
+	if con == nil {
 		return console.ErrNotAConsole
 	}
 
-	err := vx.console.SetRaw()
+	err := con.SetRaw()
 	if err != nil {
 		return err
 	}
 
+	// Queries, clipboard and title requests come from other goroutines
+	// and may be under way while Resume installs the console and writer
+	vx.mu.Lock()
+	vx.console = con
 	vx.tw = newWriter(vx)
-	vx.parser = ansi.NewParser(vx.console)
+	vx.mu.Unlock()
+	vx.parser = ansi.NewParser(con)
 	// The goroutine reads from the parser it was started for: after a
 	// Suspend it may still be on its way out when Resume installs a new one
 	parser := vx.parser
@@ -1590,6 +1596,21 @@ func (vx *Vaxis) openTty(tgts []*os.File) error {
 		}
 	}()
 	return nil
+}
+
+// tty returns the console in use. It is for the calls which are made from
+// other goroutines than the one which calls Resume
+func (vx *Vaxis) tty() console.Console {
+	vx.mu.Lock()
+	defer vx.mu.Unlock()
+	return vx.console
+}
+
+// ttyWriter is tty for the buffered writer
+func (vx *Vaxis) ttyWriter() *writer {
+	vx.mu.Lock()
+	defer vx.mu.Unlock()
+	return vx.tw
 }
 
 // Resume returns the application to it's fullscreen state, re-enters raw mode,
@@ -1655,7 +1676,7 @@ func (vx *Vaxis) CursorPosition() (row int, col int) {
 	default:
 	}
 	atomicStore(&vx.reqCursorPos, true)
-	_, _ = io.WriteString(vx.console, dsrcpr)
+	_, _ = io.WriteString(vx.tty(), dsrcpr)
 	timeout := time.NewTimer(50 * time.Millisecond)
 	select {
 	case <-timeout.C:
@@ -1687,7 +1708,7 @@ func (vx *Vaxis) cursorStyle() string {
 // ClipboardPush copies the provided string to the system clipboard
 func (vx *Vaxis) ClipboardPush(s string) {
 	b64 := base64.StdEncoding.EncodeToString([]byte(s))
-	_, _ = io.WriteString(vx.console, tparm(osc52put, b64))
+	_, _ = io.WriteString(vx.tty(), tparm(osc52put, b64))
 }
 
 // ClipboardPop requests the content from the system clipboard. ClipboardPop works by
@@ -1696,7 +1717,7 @@ func (vx *Vaxis) ClipboardPush(s string) {
 // a context to set a deadline for this function to return. An error will be
 // returned if the context is cancelled.
 func (vx *Vaxis) ClipboardPop(ctx context.Context) (string, error) {
-	_, _ = io.WriteString(vx.console, osc52pop)
+	_, _ = io.WriteString(vx.tty(), osc52pop)
 	select {
 	case str := <-vx.chClipboard:
 		return str, nil
@@ -1709,25 +1730,25 @@ func (vx *Vaxis) ClipboardPop(ctx context.Context) (string, error) {
 // string, OSC9 will be used - otherwise osc777 is used
 func (vx *Vaxis) Notify(title string, body string) {
 	if title == "" {
-		_, _ = io.WriteString(vx.console, tparm(osc9notify, body))
+		_, _ = io.WriteString(vx.tty(), tparm(osc9notify, body))
 		return
 	}
-	_, _ = io.WriteString(vx.console, tparm(osc777notify, title, body))
+	_, _ = io.WriteString(vx.tty(), tparm(osc777notify, title, body))
 }
 
 // SetTitle sets the terminal's title via OSC 2
 func (vx *Vaxis) SetTitle(s string) {
-	_, _ = io.WriteString(vx.console, tparm(setTitle, s))
+	_, _ = io.WriteString(vx.tty(), tparm(setTitle, s))
 }
 
 // SetAppID sets the terminal's application ID via OSC 176
 func (vx *Vaxis) SetAppID(s string) {
-	_, _ = io.WriteString(vx.console, tparm(setAppID, s))
+	_, _ = io.WriteString(vx.tty(), tparm(setAppID, s))
 }
 
 // Bell sends a BEL control signal to the terminal
 func (vx *Vaxis) Bell() {
-	_, _ = vx.console.Write([]byte{0x07})
+	_, _ = vx.tty().Write([]byte{0x07})
 }
 
 // advance returns the extra amount to advance the column by when rendering
